@@ -500,12 +500,38 @@ def proxy_flattening(ctx):
             el = loop.target.id
             over = isinstance(loop.iter, ast.Attribute) and loop.iter.attr == "elems" and isinstance(loop.iter.value, ast.Name) and loop.iter.value.id == param
             rec = plain = False
-            for st in ast.walk(loop):
-                if isinstance(st, ast.If) and isinstance(st.test, ast.Call) and isinstance(st.test.func, ast.Name) and st.test.func.id == "isinstance" \
-                        and len(st.test.args) == 2 and isinstance(st.test.args[0], ast.Name) and st.test.args[0].id == el and ast.unparse(st.test.args[1]) == "ArrayProxy":
-                    rec = any(isinstance(y, ast.YieldFrom) and isinstance(y.value, ast.Call) and isinstance(y.value.func, ast.Name) and y.value.func.id == h.name
-                              and len(y.value.args) == 1 and isinstance(y.value.args[0], ast.Name) and y.value.args[0].id == el for b in st.body for y in ast.walk(b))
-                    plain = any(isinstance(y, ast.Yield) and isinstance(y.value, ast.Name) and y.value.id == el for b in st.orelse for y in ast.walk(b))
+
+            def proxy_test(t):
+                """polarity of `isinstance(el, ArrayProxy)` in the test t (None: another test)"""
+                if isinstance(t, ast.UnaryOp) and isinstance(t.op, ast.Not):
+                    p = proxy_test(t.operand)
+                    return None if p is None else not p
+                if isinstance(t, ast.Call) and isinstance(t.func, ast.Name) and t.func.id == "isinstance" and len(t.args) == 2 \
+                        and isinstance(t.args[0], ast.Name) and t.args[0].id == el and ast.unparse(t.args[1]) == "ArrayProxy":
+                    return True
+                return None
+
+            yields = []  # (node, the element is a proxy: True / False / None = not decided here)
+
+            def walk(stmts, pol):
+                for s_ in stmts:
+                    if isinstance(s_, ast.If) and proxy_test(s_.test) is not None:
+                        p = proxy_test(s_.test)
+                        walk(s_.body, p)
+                        walk(s_.orelse, not p)
+                        if not s_.orelse and s_.body and isinstance(s_.body[-1], (ast.Continue, ast.Return)):
+                            pol = not p  # guard clause: the rest of the block is the other arm
+                    else:
+                        for y in ast.walk(s_):
+                            if isinstance(y, (ast.Yield, ast.YieldFrom)):
+                                yields.append((y, pol))
+
+            walk(loop.body, None)
+            rec = any(isinstance(y, ast.YieldFrom) and p is True and isinstance(y.value, ast.Call) and isinstance(y.value.func, ast.Name) and y.value.func.id == h.name
+                      and len(y.value.args) == 1 and isinstance(y.value.args[0], ast.Name) and y.value.args[0].id == el for y, p in yields)
+            plain = any(isinstance(y, ast.Yield) and p is False and isinstance(y.value, ast.Name) and y.value.id == el for y, p in yields)
+            # nothing else is yielded for a proxy element (a one-level `yield from elem.elems` would be)
+            rec = rec and not any(p is True and not (isinstance(y, ast.YieldFrom) and isinstance(y.value, ast.Call) and isinstance(y.value.func, ast.Name) and y.value.func.id == h.name) for y, p in yields)
             detail = f"loop over {ast.unparse(loop.iter)}: recursion on nested proxies {rec}, other elements yielded {plain}"
             ok = ok or (over and rec and plain)
         ctx.check(ok, "C40.proxy-flattening", f"{REL}:{h.lineno}", f"arrayproxy_fields.{h.name}", found=detail,
